@@ -123,6 +123,21 @@ def call_bound(N, strain):
     return 5e-3 + 1e-3 * (N + 2.0 * strain)
 
 
+def atol_estimate(F_in, F_ref):
+    """Relative error that PyDRex's choice of absolute solver tolerance (1e-4 + 1e-6|F_start|)
+    alone can produce in the result: the flow map Phi = F_ref . F_in^-1 amplifies an absolute
+    error of 1e-4 by its largest singular value, and the error is measured relative to
+    max|F_ref|.  O(1e-4) for forward straining from an O(1) start; large when the result is
+    much smaller than the start (compressing flows) or when small components of the start are
+    blown up again (un-straining on intervals running backwards in time)."""
+    try:
+        Phi = F_ref @ np.linalg.inv(F_in)
+        smax = float(np.linalg.svd(Phi, compute_uv=False)[0])
+    except Exception:  # noqa: BLE001
+        return float("inf")
+    return 1e-4 * max(1.0, smax) / max(float(np.abs(F_ref).max()), 1e-300)
+
+
 class C06Monitor:
     def __init__(self):
         self.verdicts = []
@@ -131,6 +146,8 @@ class C06Monitor:
         self.cum = {}  # mineral idx -> (F_ref_cumulative, N, strain)
         self.compact = False
         self.reversed = False
+        self.peak = {}
+        self.hist = {}
 
     def v(self, clause, i, m, detail):
         self.verdicts.append({"property": PROPERTY, "clause": clause, "op": i, "m": m,
@@ -163,6 +180,9 @@ class C06Monitor:
         Fref = world.ref_F(flow, path, op["t0"], op["t1"], F_in)
         rel = float(np.abs(F_out - Fref).max() / np.abs(Fref).max())
         b = call_bound(1, eps)
+        est = atol_estimate(F_in, Fref)
+        if est / b >= 0.03:
+            self.inc("calls_ill_conditioned_for_atol_1e-4")
         self.inc("calls_checked")
         self.inc(f"calls_checked.{flow.family}")
         if op["t1"] < op["t0"]:
@@ -177,12 +197,14 @@ class C06Monitor:
                 self.inc("calls_with_L_zero_at_both_ends_but_not_between")
         if rec["op"] == "update_all":
             self.inc("bulk_calls_checked")
-        tag = ".compact_support" if flow.family in ("pulse", "band") else ""
+        tag = ".compact_support" if flow.family in ("pulse", "band") else \
+            (".ill_conditioned_for_atol" if est / b >= 0.03 else "")
         self.mx("per_call_rel_over_bound" + tag, rel / b)
         if rel > b:
             self.v("per_call" if rec["op"] == "update" else "bulk", i, m0,
                    {"rel": rel, "bound": b, "strain": eps, "family": flow.family,
                     "reversed_interval": bool(op["t1"] < op["t0"]),
+                    "atol_estimate_over_bound": est / b,
                     "solver_steps": rec["steps"], "L_nonzero_seen": rec.get("L_nonzero_seen"),
                     "F_out": F_out.tolist(), "F_ref": Fref.tolist()})
         # determinant: det F_out = det F_in * exp(int tr L)
@@ -193,23 +215,41 @@ class C06Monitor:
         if d > det_tol:
             self.v("det", i, m0, {"det": float(np.linalg.det(F_out)), "det_ref": det_ref,
                                   "tol": det_tol, "family": flow.family, "solver_steps": rec["steps"],
-                                  "strain": eps, "reversed_interval": bool(op["t1"] < op["t0"])})
+                                  "strain": eps, "reversed_interval": bool(op["t1"] < op["t0"]),
+                                  "atol_estimate_over_bound": est / b})
         # cumulative refinement along the F chain (a bulk update continues the chain of
         # the mineral whose F was handed in and hands the result to every mineral in the list)
         lead = ms[0] if rec["op"] == "update" or op.get("F_from") is None else op["F_from"]
         cl = self.cum[lead]
         newref = world.ref_F(flow, path, op["t0"], op["t1"], cl[0])
         N, st = cl[1] + 1, cl[2] + eps
+        # conditioning of the chain: an absolute error of 1e-4 committed at ANY earlier point j
+        # of the history is amplified by the flow map from j to now
+        hist = self.hist.setdefault(lead, [cl[0].copy()])
+        amp = 1.0
+        for Fj in hist[-400:]:
+            try:
+                amp = max(amp, float(np.linalg.svd(newref @ np.linalg.inv(Fj), compute_uv=False)[0]))
+            except Exception:  # noqa: BLE001
+                amp = float("inf")
+        hist.append(newref.copy())
+        est_chain = 1e-4 * amp / max(float(np.abs(newref).max()), 1e-300)
+        pk = max(self.peak.get(lead, 0.0), est / b, est_chain / call_bound(N, st))
         for m in ms:
             self.cum[m] = [newref.copy(), N, st]
+            self.peak[m] = pk
+            self.hist[m] = hist
         relc = float(np.abs(F_out - newref).max() / np.abs(newref).max())
         bc = call_bound(N, st)
-        self.mx("cumulative_rel_over_bound" + (".compact_support" if self.compact else ""), relc / bc)
+        self.mx("cumulative_rel_over_bound" + (".compact_support" if self.compact else
+                                               ".ill_conditioned_for_atol" if pk >= 0.03 else ""),
+                relc / bc)
         if relc > bc:
             self.v("cumulative", i, lead, {"rel": relc, "bound": bc, "N": N, "strain": st,
                                            "family": flow.family, "solver_steps": rec["steps"],
                                            "compact_support_in_history": self.compact,
-                                           "reversed_interval_in_history": self.reversed})
+                                           "reversed_interval_in_history": self.reversed,
+                                           "atol_estimate_over_bound": pk})
 
 
 def _merged_ops(scn):
@@ -258,13 +298,15 @@ def execute(scn):
             rel = float(np.abs(F_split - F_whole).max() / np.abs(F_whole).max())
             mon.inc("split_vs_whole_checked")
             fam0 = world.flows[part_ok[0]["flow"]].family
-            mon.mx("split_rel_over_tol" + (".compact_support" if fam0 in ("pulse", "band") else ""),
+            mon.mx("split_rel_over_tol" + (".compact_support" if fam0 in ("pulse", "band") else
+                                           ".ill_conditioned_for_atol" if mon.peak.get(m, 0.0) >= 0.03 else ""),
                    rel / tol)
             if rel > tol:
                 fam = world.flows[part_ok[0]["flow"]].family
                 mon.v("split_vs_whole", len(scn["ops"]), m,
                       {"rel": rel, "tol": tol, "N": N, "strain": st, "family": fam,
                        "reversed_interval_in_history": bool(mon.reversed),
+                       "atol_estimate_over_bound": mon.peak.get(m, 0.0),
                        "solver_steps": min([r["steps"]] + [x["steps"] for x in part_ok])})
     c = mon.c
     c["update_calls"] = len(world.log)
